@@ -701,3 +701,8 @@ package sbom
 //@   props C04, C05
 //@   assigns \nothing
 //@   ensures [C05:identifier:nonEmpty] result != ""
+
+// a switch over the enum: state independent; contracts use its shadow function under quantifiers
+//@ func Edge_Type.ToSPDX2
+//@   props C01
+//@   shadow
